@@ -351,3 +351,27 @@ PROPS['C11'] = {
 MANIFEST_TEXT['C11'] = {'claim': 'privileged/unprivileged x requested/not x flags x generated perturbations forced at a schedule point between prctl and seccomp; the installing thread must carry the bit at install time and be the thread that set it; unprivileged loads with the bit requested must always succeed',
                         'note': 'the migration-inducing schedule is forced through the hook and its strength measured on a control goroutine in the same child',
                         'technique': 'property-based testing (rapid) with schedule-point fault injection; strace cross-check of call order and thread'}
+
+_SANDBOX = [{'name': 'sandbox', 'from_repo': 'github.com/elastic/go-seccomp-bpf/cmd/sandbox', 'tags': ''}, 'probe']
+
+PROPS['C15'] = {
+    'level': 'exploration',
+    'rule': ('cases = (probe policy, spelling seed, defect kind or none, position, no-new-privs flag, uid 0|65534, probe events): the policy is rendered to a YAML file by the harness config writer; '
+             'defects: file missing, empty, binary garbage, YAML syntax error at a generated line, scalar where a list is expected, unknown syscall (names / conditional entry) / action / default action / operation at a '
+             'generated position, no seccomp key, empty syscalls, argument index 6, a program the kernel refuses (> 4096 instructions), unprivileged without no_new_privs; the built sandbox command is run on a separate '
+             'probe program that first creates a marker file, then issues generated raw probe calls; oracle: invalid => exit status != 0 and no marker; valid => marker exists and every probe result equals the '
+             'reference decision (kill_process => the target dies exactly at that probe and the sandbox exits != 0); non-trivial: invalid file whose defect is at a generated (non-first) position, or a valid '
+             'policy under which the target sees both denied and allowed probes, or a kill; distinct by hash of the case JSON'),
+    'assumptions': _KERNEL_ASSUMPTIONS + ['the sandbox command is tested as a built binary from the outside (no hooks)'],
+    'required_classes': {'all': ['invalid:' + d for d in ('missing-file', 'empty-file', 'yaml-syntax', 'wrong-type', 'unknown-syscall', 'unknown-syscall-conditional', 'unknown-action',
+                                                          'unknown-default-action', 'unknown-operation', 'no-seccomp-key', 'empty-syscalls', 'argument-index-6', 'oversize-program',
+                                                          'unprivileged-without-nnp', 'binary-garbage')] +
+                         ['valid', 'target-sees-denied-and-allowed-probes', 'target-killed-at-the-expected-probe', 'uid:65534', 'nnp:false']},
+    'units': [
+        {'test': 'TestC15Sandbox', 'checks': {'quick': 320, 'thorough': 12000}, 'shards': {'quick': 8, 'thorough': 16}, 'helpers': _SANDBOX,
+         'timeout': {'quick': 500, 'thorough': 3300}},
+    ],
+}
+MANIFEST_TEXT['C15'] = {'claim': 'generated policy files (valid and invalid in 15 ways at generated positions) x flags x uid against the built sandbox binary with a separate probe program as target; marker file and per-probe results compared with the reference decision',
+                        'note': 'black-box test of the built command on the running kernel',
+                        'technique': 'property-based testing (rapid) with fault injection into configuration files; reference-model oracle observed from a separate program image'}
